@@ -10,6 +10,9 @@ struct main_state {
   int ngroups;
   int (*poll_hook)(struct pollfd *, nfds_t, int);
   int (*mount_hook)(const char *, const char *);
+  const char *mount_type;   /* remaining arguments of the last mount() call */
+  unsigned long mount_flags;
+  const void *mount_data;
   int (*fan_init_hook)(unsigned, unsigned);
   int (*fan_mark_hook)(int, unsigned, unsigned long long, const char *);
   int (*setgroups_hook)(size_t);
